@@ -50,7 +50,9 @@ def qr_shortcut_rule(chk, src):
     """the `skip the QR` shortcut of _decompose_qr sets q = gamma, r = [[1]], p = [0]: shapes agree with q (R x K), r (K x C), p (C) only if gamma has one column"""
     from ..syminterp import SymInterp, Sym
     fi = src.func(SYM, "_decompose_qr")
-    ifs = [n for n in ast.walk(fi.node) if isinstance(n, ast.If) and ".shape" in unparse(n.test) and any("linalg.qr" in unparse(x) for x in n.body + n.orelse)]
+    from ..src import inline_adjacent_temps
+    fnode = inline_adjacent_temps(fi.node)
+    ifs = [n for n in ast.walk(fnode) if isinstance(n, ast.If) and ".shape" in unparse(n.test) and any("linalg.qr" in unparse(x) for x in n.body + n.orelse)]
     if len(ifs) != 1:
         raise AnalysisError(f"{fi.where}: QR / shortcut branch not found")
     node = ifs[0]
@@ -373,7 +375,8 @@ def run(chk):
            {str(k): v for k, v in want.items() if v}, line=cs.node.lineno, detail="composed symbol = (incoming bond index, primary operator index); the entry of outgoing operator j goes to [symbol[0]][j]")
     for rel, qual, ranks in ((MPO, "Mpo.todense", (4, 4)), (MPS, "Mps.todense", (3, 3))):
         fi = src.func(rel, qual)
-        loop = [n for n in ast.walk(fi.node) if isinstance(n, ast.For)]
+        from ..src import inline_adjacent_temps
+        loop = [n for n in ast.walk(inline_adjacent_temps(fi.node)) if isinstance(n, ast.For)]
         # the accumulation statement: <acc> = tensordot(<acc>, <site>...)... inside the loop over the sites (names are free)
         asg = [s_ for l in loop for s_ in l.body if isinstance(s_, ast.Assign) and isinstance(s_.targets[0], ast.Name) and "tensordot" in unparse(s_.value)
                and any(isinstance(x, ast.Name) and x.id == s_.targets[0].id for x in ast.walk(s_.value))]
